@@ -30,6 +30,10 @@ BASE = 'a55d07f'     # the commit the properties' line numbers refer to
 # functions): (file, kind, name regex).  Found by seeded changes the anchors alone did not notice.
 EXTRA = {
     # the per-family parse functions of afisafi.rs (anchored) delegate to these; Model/Nlri.v parse_body mirrors them
+    # SessionConfig / SessionAddpaths: what decides whether a section is read with path ids
+    'C01': [('src/bgp/message/update.rs', 'fn', r'set|add_addpath|add_famdir|add_addpath_rxtx|clear_addpaths|get_addpath|rx_addpath|enabled_addpaths|from_session_config')],
+    # an NLRI item yielded by an accepted message: its own accessors
+    'C02': [('src/bgp/nlri/routetarget.rs', 'fn', r'origin_as|route_target|is_default|parse')],
     # Attribute for HopPath (value_len / compose_value) goes through these: every AS_PATH the builder or a re-encoding writes
     'C06': [('src/bgp/aspath.rs', 'fn', r'compose_as_path|compose_as16_path|to_as_path|compose_len')],
     'C07': [('src/bgp/aspath.rs', 'fn', r'compose_as_path|compose_as16_path|to_as_path|compose_len|to_hop_path|next|hops|segments')],
